@@ -234,7 +234,14 @@ func marshalDocSections(secs []DocumentSection) []byte {
 
 func unmarshalDocSections(data []byte, ds []DocumentSection) []DocumentSection {
 	sz, m := binary.Uvarint(data)
+	if m <= 0 {
+		// truncated or over-long count: a corrupt list decodes as empty
+		return ds[:0]
+	}
 	data = data[m:]
+	if sz > uint64(len(data)) {
+		sz = uint64(len(data)) // every value takes at least one byte
+	}
 
 	if cap(ds) < int(sz)/2 {
 		ds = make([]DocumentSection, 0, sz/2)
@@ -249,11 +256,17 @@ func unmarshalDocSections(data []byte, ds []DocumentSection) []DocumentSection {
 		var d DocumentSection
 
 		delta, m := binary.Uvarint(data)
+		if m <= 0 {
+			break // unterminated or over-long varint
+		}
 		last += uint32(delta)
 		data = data[m:]
 		d.Start = last
 
 		delta, m = binary.Uvarint(data)
+		if m <= 0 {
+			break
+		}
 		last += uint32(delta)
 		data = data[m:]
 		d.End = last
@@ -296,7 +309,13 @@ func toSizedDeltas(offsets []uint32) []byte {
 
 func fromSizedDeltas(data []byte, ps []uint32) []uint32 {
 	sz, m := binary.Uvarint(data)
+	if m <= 0 {
+		return ps[:0]
+	}
 	data = data[m:]
+	if sz > uint64(len(data)) {
+		sz = uint64(len(data))
+	}
 
 	if cap(ps) < int(sz) {
 		ps = make([]uint32, 0, sz)
@@ -307,6 +326,9 @@ func fromSizedDeltas(data []byte, ps []uint32) []uint32 {
 	var last uint32
 	for len(data) > 0 {
 		delta, m := binary.Uvarint(data)
+		if m <= 0 {
+			break
+		}
 		offset := last + uint32(delta)
 		last = offset
 		data = data[m:]
@@ -336,7 +358,13 @@ func toSizedDeltas16(offsets []uint16) []byte {
 
 func fromSizedDeltas16(data []byte, ps []uint16) []uint16 {
 	sz, m := binary.Uvarint(data)
+	if m <= 0 {
+		return ps[:0]
+	}
 	data = data[m:]
+	if sz > uint64(len(data)) {
+		sz = uint64(len(data))
+	}
 
 	if cap(ps) < int(sz) {
 		ps = make([]uint16, 0, sz)
@@ -347,6 +375,9 @@ func fromSizedDeltas16(data []byte, ps []uint16) []uint16 {
 	var last uint16
 	for len(data) > 0 {
 		delta, m := binary.Uvarint(data)
+		if m <= 0 {
+			break
+		}
 		offset := last + uint16(delta)
 		last = offset
 		data = data[m:]
@@ -364,6 +395,9 @@ func fromDeltas(data []byte, buf []uint32) []uint32 {
 	var last uint32
 	for len(data) > 0 {
 		delta, m := binary.Uvarint(data)
+		if m <= 0 {
+			break
+		}
 		offset := last + uint32(delta)
 		last = offset
 		data = data[m:]
